@@ -272,3 +272,99 @@ theorem run_rel (ev : List Tok → Option Bool) {ms ms' : Table} (h : TableRel S
       simp only [hs.chain, hs.out]
 
 end RsslVerif.Lemmas.MacroLite
+
+/-! ## The fuel of `expandTok` is never exhausted
+
+Each nesting level disables a macro that was enabled and is in the table, so the number of enabled entries
+strictly decreases; with more fuel than enabled entries the result no longer depends on the fuel. -/
+namespace RsslVerif.Lemmas.MacroLite
+open RsslVerif.Model.MacroLite
+
+/-- number of table entries whose name is not disabled -/
+def enabledCount (ms : Table) (dis : List String) : Nat :=
+  (ms.filter fun m => !dis.contains m.name).length
+
+theorem filter_length_lt {α : Type} (p q : α → Bool) (l : List α) (hpq : ∀ a, p a = true → q a = true)
+    (a : α) (ha : a ∈ l) (hq : q a = true) (hp : p a = false) :
+    (l.filter p).length < (l.filter q).length := by
+  induction l with
+  | nil => cases ha
+  | cons b l ih =>
+    have hle : (l.filter p).length ≤ (l.filter q).length := by
+      clear ih ha
+      induction l with
+      | nil => simp
+      | cons c l ih2 =>
+        simp only [List.filter_cons]
+        cases hpc : p c with
+        | false =>
+          cases q c <;> simp <;> omega
+        | true => simp [hpq c hpc, ih2]
+    rcases List.mem_cons.1 ha with rfl | hmem
+    · simp only [List.filter_cons, hq, hp]
+      simp
+      omega
+    · have := ih hmem
+      simp only [List.filter_cons]
+      cases hpb : p b with
+      | false => cases q b <;> simp <;> omega
+      | true => simp [hpq b hpb]; omega
+
+theorem lookup_some {ms : Table} {dis : List String} {s : String} {m : Macro}
+    (h : lookup ms dis s = some m) : m ∈ ms ∧ dis.contains m.name = false := by
+  simp only [lookup] at h
+  have h1 := List.mem_of_find?_eq_some h
+  have h2 := List.find?_some h
+  simp only [Bool.and_eq_true, Bool.not_eq_eq_eq_not, Bool.not_true] at h2
+  exact ⟨h1, h2.2⟩
+
+theorem enabledCount_lt {ms : Table} {dis : List String} {m : Macro} (hm : m ∈ ms)
+    (hd : dis.contains m.name = false) : enabledCount ms (m.name :: dis) < enabledCount ms dis := by
+  apply filter_length_lt _ _ ms _ m hm
+  · have : m.name ∉ dis := by simpa using hd
+    simp [this]
+  · simp
+  · intro a ha
+    simp only [List.contains_cons, Bool.not_or, Bool.and_eq_true, Bool.not_eq_eq_eq_not, Bool.not_true] at ha
+    have : a.name ∉ dis := by simpa using ha.2
+    simp [this]
+
+/-- with more fuel than enabled entries, one more unit of fuel changes nothing -/
+theorem expandTok_fuel_succ (ms : Table) :
+    ∀ (fuel : Nat) (dis : List String) (t : Tok), enabledCount ms dis < fuel →
+      expandTok ms fuel dis t = expandTok ms (fuel + 1) dis t := by
+  intro fuel
+  induction fuel with
+  | zero => intro dis t h; omega
+  | succ fuel ih =>
+    intro dis t h
+    cases t with
+    | lit n => simp [expandTok]
+    | punct p => simp [expandTok]
+    | id s =>
+      simp only [expandTok]
+      cases hl : lookup ms dis s with
+      | none => rfl
+      | some m =>
+        simp only
+        have ⟨hm, hd⟩ := lookup_some hl
+        have hlt := enabledCount_lt hm hd
+        apply flatMap_congr'
+        intro t' _
+        exact ih (m.name :: dis) t' (by omega)
+
+/-- **The fuel bound is sufficient**: any amount of fuel above `fuelFor ms` gives the same expansion, so the
+    out-of-fuel branch of `expandTok` is never the reason for a result. -/
+theorem expand_fuel_irrelevant (ms : Table) (k : Nat) (t : Tok) :
+    expandTok ms (fuelFor ms + k) [] t = expandTok ms (fuelFor ms) [] t := by
+  induction k with
+  | zero => rfl
+  | succ k ih =>
+    rw [← ih]
+    have hle : enabledCount ms [] < fuelFor ms + k := by
+      simp only [enabledCount, fuelFor]
+      have := List.length_filter_le (fun m : Macro => !([] : List String).contains m.name) ms
+      omega
+    exact (expandTok_fuel_succ ms (fuelFor ms + k) [] t hle).symm
+
+end RsslVerif.Lemmas.MacroLite
